@@ -104,6 +104,12 @@ func (k Keeper) UpdateNSTBalance(
 						return true, err
 					}
 					slashShare := delegationAmount.UndelegatableShare.Mul(slashProportion)
+					if !slashShare.IsPositive() {
+						// nothing is delegated to this operator any more (the entry only remains
+						// for a pending undelegation): there is nothing to slash here, and asking
+						// RemoveShare for a zero share would abort the whole update half way.
+						return false, nil
+					}
 					actualSlashAmount, err := k.RemoveShare(ctx, false, opAccAddr, stakerID, assetID, slashShare)
 					if err != nil {
 						return true, err
